@@ -377,6 +377,19 @@ func ensureNoNodeWithSimilarNameTxn(tx ReadTxn, node *structs.Node, allowClashWi
 	return nil
 }
 
+// ensureNodeNameNotReservedTxn applies the node name reservation rule to nodes
+// of the local catalog. Nodes imported from a peer mirror a catalog whose own
+// servers already applied that rule when the node was registered there. The
+// importing side only sees the latest state of the exporting catalog, in which
+// a node may have been replaced by another one with the same name, so applying
+// the rule a second time would refuse that update every time it is received.
+func ensureNodeNameNotReservedTxn(tx ReadTxn, node *structs.Node, allowClashWithoutID bool) error {
+	if node.PeerName != "" {
+		return nil
+	}
+	return ensureNoNodeWithSimilarNameTxn(tx, node, allowClashWithoutID)
+}
+
 // ensureNodeCASTxn updates a node only if the existing index matches the given index.
 // Returns a bool indicating if a write happened and any error.
 func (s *Store) ensureNodeCASTxn(tx WriteTxn, idx uint64, node *structs.Node) (bool, error) {
@@ -422,9 +435,8 @@ func (s *Store) ensureNodeTxn(tx WriteTxn, idx uint64, preserveIndexes bool, nod
 			n = existing
 			if !strings.EqualFold(n.Node, node.Node) {
 				// Lets first get all nodes and check whether name do match, we do not allow clash on nodes without ID
-				dupNameError := ensureNoNodeWithSimilarNameTxn(tx, node, false)
-				if dupNameError != nil {
-					return fmt.Errorf("Error while renaming Node ID: %q (%s): %s", node.ID, node.Address, dupNameError)
+				if err := ensureNodeNameNotReservedTxn(tx, node, false); err != nil {
+					return fmt.Errorf("Error while renaming Node ID: %q (%s): %s", node.ID, node.Address, err)
 				}
 				// We are actually renaming a node, remove its reference first
 				err := s.deleteNodeTxn(tx, idx, n.Node, n.GetEnterpriseMeta(), n.PeerName)
@@ -436,9 +448,8 @@ func (s *Store) ensureNodeTxn(tx WriteTxn, idx uint64, preserveIndexes bool, nod
 		} else {
 			// We allow to "steal" another node name that would have no ID
 			// It basically means that we allow upgrading a node without ID and add the ID
-			dupNameError := ensureNoNodeWithSimilarNameTxn(tx, node, true)
-			if dupNameError != nil {
-				return fmt.Errorf("Error while renaming Node ID: %q: %s", node.ID, dupNameError)
+			if err := ensureNodeNameNotReservedTxn(tx, node, true); err != nil {
+				return fmt.Errorf("Error while renaming Node ID: %q: %s", node.ID, err)
 			}
 		}
 	}
